@@ -97,6 +97,10 @@ def rows_bits():
         out.append(("struct-overlap-nested %d" % outer, LE + "struct In:\n  0 [+4]  UInt  a\n  2 [+6]  UInt:8[6]  b\n  1 [+2]  UInt  c\nstruct Ss:\n  0 [+%d]  In  s\n" % outer, ok))
         out.append(("struct-alias-longer %d" % outer, LE + "struct In:\n  0 [+4]  UInt  a\n  0 [+8]  UInt  whole\nstruct Ss:\n  0 [+%d]  In  s\n" % outer, ok))
         out.append(("struct-typed-size %d" % outer, LE + "struct In:\n  4 [+4]  UInt  hi\n  0 [+4]  UInt  lo\nstruct Ss:\n  0 [+%d]  In  s\n" % outer, ok))
+    out.append(("anon-bits-72", LE + "struct Ss:\n  0 [+9]  bits:\n    0 [+64]  UInt  a\n    64 [+8]  UInt  b\n", False))
+    out.append(("anon-bits-64", LE + "struct Ss:\n  0 [+8]  bits:\n    0 [+60]  UInt  a\n    60 [+4]  UInt  b\n", True))
+    out.append(("anon-bits-dynamic", LE + "struct Ss:\n  0 [+4]  bits:\n    0 [+4]  UInt  n\n    4 [+n]  UInt:1[]  rest\n", False))
+    out.append(("inline-bits-72", LE + "struct Ss:\n  0 [+9]  bits  bb:\n    0 [+64]  UInt  a\n    64 [+8]  UInt  b\n", False))
     out.append(("bits-dynamic", "bits Bb:\n  0 [+4]  UInt  n\n  4 [+n]  UInt:1[]  rest\n", False))
     out.append(("bits-conditional-fixed", "bits Bb:\n  0 [+4]  UInt  n\n  if n == 1:\n    4 [+4]  UInt  m\n", None))
     out.append(("bits-with-struct-member", LE + "struct Ss:\n  0 [+1]  UInt  x\nbits Bb:\n  0 [+8]  Ss  s\n", False))
@@ -169,6 +173,14 @@ def rows_byte_order():
                         eff = attr or ds or dm or "Null"
                         ok = eff in ("LittleEndian", "BigEndian") or n == 1
                         out.append(("byte-order %s n=%d attr=%s struct=%s module=%s" % (kind, n, attr, ds, dm), "\n".join(lines) + "\n", ok))
+    # a $default applies to its own subtree only: neither to later siblings nor to imported modules
+    out.append(("byte-order default-does-not-leak-to-later-struct",
+                'struct Aa:\n  [$default byte_order: "BigEndian"]\n  0 [+2]  UInt  x\nstruct Bb:\n  0 [+2]  UInt  y\n', False))
+    out.append(("byte-order default-does-not-leak-to-earlier-struct",
+                'struct Bb:\n  0 [+2]  UInt  y\nstruct Aa:\n  [$default byte_order: "BigEndian"]\n  0 [+2]  UInt  x\n', False))
+    out.append(("byte-order default-in-nested-does-not-leak",
+                'struct Aa:\n  struct In:\n    [$default byte_order: "BigEndian"]\n    0 [+2]  UInt  x\n  0 [+2]  In  i\n  2 [+2]  UInt  y\n', False))
+    out.append(("byte-order default-own-subtree", 'struct Aa:\n  [$default byte_order: "BigEndian"]\n  struct In:\n    0 [+2]  UInt  x\n  0 [+2]  In  i\n  2 [+2]  UInt  y\n', True))
     out.append(("byte-order bad value", 'struct Ss:\n  0 [+2]  UInt  f\n    [byte_order: "MiddleEndian"]\n', False))
     out.append(("byte-order array needs order", "struct Ss:\n  0 [+4]  UInt:16[2]  f\n", False))
     out.append(("byte-order array has order", LE + "struct Ss:\n  0 [+4]  UInt:16[2]  f\n", True))
